@@ -240,10 +240,38 @@ func buildCorpus(thorough bool) []corpusCase {
 		add(rawCase("message0", cat([]byte{0, byte(network.CMDExtensible)}, mustHex("fe00000002"), make([]byte, 0x2000000))))
 		add(rawCase("extensible", cat([]byte{0}, make([]byte, 28), mustHex("fe00000002"), make([]byte, 0x2000000), []byte{1, 0, 0})))
 	}
+	// Reserved attributes 0xe0..0xff, empty and non-empty value: binary and JSON round trip (generic oracle + the
+	// key json-reserved-attribute), alone and inside a transaction pushed through every arrival path (incl. JSON)
+	add(func(rn *runner, k int) {
+		for t := 0xe0; t <= 0xff; t++ {
+			for _, val := range [][]byte{{}, {1, 2, 3}, bytes.Repeat([]byte{0xab}, 300)} {
+				a := &transaction.Attribute{Type: transaction.AttrType(t), Value: &transaction.Reserved{Value: val}}
+				b, err := encBytes(a)
+				if err != nil {
+					rn.o.Fail("attr-encode-fails", k, "Reserved attribute %#x: %v", t, err)
+					continue
+				}
+				rn.bytesCase(k, codecByName["attr"], b)
+				if len(val) == 3 {
+					tx := simpleTx()
+					tx.Attributes = []transaction.Attribute{*a}
+					tb := tx.Bytes()
+					rep := rn.ask(k, "tx", "T "+hx.Hex(tb))
+					if txPathsModelled {
+						rn.o.Line("txpaths "+hx.Hex(tb), tiePaths(rep.obs))
+					}
+					rn.bytesCase(k, codecByName["tx"], tb)
+				}
+			}
+		}
+		rn.o.Seen("corpus/attr/reserved-all")
+	})
 	cs = append(cs, storedCorpus()...) // stored form of manifests / deployed contracts (storedform.go)
 	cs = append(cs, dagCorpus()...)    // shared compounds at the item-count limit (dag.go)
 	cs = append(cs, jsonCorpus()...)   // typed JSON of stack items (itemjson.go)
 	cs = append(cs, entryCorpus()...)  // several decoding entry points, integrity fields (entries.go)
 	cs = append(cs, scopesCorpus()...) // JSON text of witness scopes (scopes.go)
+	cs = append(cs, msgObjCorpus()...) // one Message object serialised several times (msgobj.go)
+	cs = append(cs, tokensCorpus()...) // token transfer log records: amount boundaries (tokens.go)
 	return cs
 }
